@@ -10,42 +10,17 @@ import (
 func k(s string) (x tl.Key) { b, _ := hex.DecodeString(s); copy(x[:], b); return }
 
 func main() {
-	k66 := k("684ecb58e78132acddda91a5cafc8a41c54bc68b983461988db25541d0da0f66")
-	k6e := k("684ecb58e78132acddda91a5cafc8a41c54bc68b983461988db25541d0da0f6e")
-	k6f := k("684ecb58e78132acddda91a5cafc8a41c54bc68b983461988db25541d0da0f6f")
-	v1 := k("b18c76a0b96cf5b2841bb2c1b8a08a6d02755328ab281a2d83b53d462bc39a70")
-	v2 := k("33f8c3505f2c5bab49fbdb7f11c30ea5c5cdcd1baaa6d0d99e926a634a8dfe70")
-	v3 := k("6474d0b15303fdef26b066acccf8cda42881aaa0a146213253c0f66068698cdf")
-	hist := []tl.Batch{
-		{{K: k6e, V: v1}, {K: k6f, Del: true}},
-		{{K: k66, V: v2}, {K: k6e, Del: true}, {K: k6f, V: v3}},
-	}
-	_, t, snaps, err := tl.Build("/var/tmp/c10dbg", hist, false)
-	fmt.Println(err)
-	for _, s := range snaps {
-		fmt.Printf("root %x ref %x\n", s.Root, tl.RefRoot(s.Model))
-	}
-	for _, kk := range []tl.Key{k66, k6e, k6f} {
-		g, e := t.Get(kk[:])
-		fmt.Printf("get %x -> %x %v\n", kk[28:], g, e)
-	}
-	// variants
-	hist2 := []tl.Batch{
-		{{K: k6e, V: v1}},
-		{{K: k66, V: v2}, {K: k6e, Del: true}, {K: k6f, V: v3}},
-	}
-	_, _, snaps, err = tl.Build("/var/tmp/c10dbg", hist2, false)
-	fmt.Println(err)
-	for _, s := range snaps {
-		fmt.Printf("v2 root %x ref %x\n", s.Root, tl.RefRoot(s.Model))
-	}
-	hist3 := []tl.Batch{
-		{{K: k6e, V: v1}},
-		{{K: k6e, Del: true}, {K: k6f, V: v3}},
-	}
-	_, _, snaps, err = tl.Build("/var/tmp/c10dbg", hist3, false)
-	fmt.Println(err)
-	for _, s := range snaps {
-		fmt.Printf("v3 root %x ref %x\n", s.Root, tl.RefRoot(s.Model))
-	}
+	kA := k("1000000000000000000000000000000000000000000000000000000000000000")
+	kB := k("9000000000000000000000000000000000000000000000000000000000000000")
+	vA := k("aa00000000000000000000000000000000000000000000000000000000000000")
+	vB := k("bb00000000000000000000000000000000000000000000000000000000000000")
+	hist := []tl.Batch{{{K: kA, V: vA}, {K: kB, V: vB}}}
+	_, t, _, err := tl.Build("/var/tmp/c10dbg", hist, false)
+	fmt.Println(err, hex.EncodeToString(t.Root))
+	ap, incl, pk, pv, _ := t.MerkleProof(kA[:])
+	fmt.Println("honest inclusion proof for kA: included", incl, "len(ap)", len(ap), pk, hex.EncodeToString(pv))
+	fmt.Println("VerifyInclusion(ap,kA,vA)      =", t.VerifyInclusion(ap, kA[:], vA[:]))
+	fmt.Println("VerifyNonInclusion(ap,kA,vA,kA) =", t.VerifyNonInclusion(ap, kA[:], vA[:], kA[:]), " <- 'kA is absent' accepted although kA is present")
+	bm, apc, h, _, _, _, _ := t.MerkleProofCompressed(kA[:])
+	fmt.Println("VerifyNonInclusionC(..kA,vA,kA) =", t.VerifyNonInclusionC(apc, h, bm, kA[:], vA[:], kA[:]))
 }
